@@ -559,6 +559,8 @@ class Exec:
             if fld == '_ref':
                 return S.dom[zint(key, self, p)]
             if fld == 'vars':
+                if isinstance(key, IntV) and key.none is None:
+                    return BoolVal(False)       # `vars` is keyed by names (strings): an integer is never a key
                 if not isinstance(key, NameV):
                     raise Unsupported(f'non-name key in vars@{line}')
                 return S.vin[key.z]
@@ -1512,6 +1514,11 @@ class Exec:
             nxt = []
             for p in paths:
                 if p.status != 'run':
+                    nxt.append(p)
+                    continue
+                if getattr(self.c, 'stop_at', None) and self.c.stop_at(st):
+                    # the contract covers a prefix of the function only: execution is cut here (see the contract's note)
+                    p.status, p.line = 'stopped', st.lineno
                     nxt.append(p)
                     continue
                 self.side_paths = []
